@@ -102,3 +102,29 @@ Definition required_sites : list string :=
 Theorem required_sites_present :
   forallb (fun s => existsb (fun p => String.eqb s (p_site p)) plans) required_sites = true.
 Proof. vm_compute. reflexivity. Qed.
+
+(* ---- coordinate-ramp plans (perlin, generate_terrain) ----------------------
+   The Dask plan maps the per-cell kernel over the blocks of
+   meshgrid(linx, liny).  Obligation: each coordinate argument is fed, on the
+   Dask path, by the SAME linspace (start, stop, num, endpoint, dtype, factor)
+   as on the NumPy path; the first coordinate varies along the columns with
+   num = cols, the second along the rows with num = rows; endpoint=False (the
+   rule ProofsRamp.coord_blocks_whole models).  Feeding liny from the x range
+   (or with the other axis' length, or another endpoint rule) breaks this. *)
+Definition ramp_eqb (a b : ramp) : bool :=
+  ((r_axis a =? r_axis b) && String.eqb (r_start a) (r_start b) && String.eqb (r_stop a) (r_stop b)
+   && String.eqb (r_num a) (r_num b) && Bool.eqb (r_endpoint a) (r_endpoint b)
+   && String.eqb (r_dtype a) (r_dtype b) && String.eqb (r_mult a) (r_mult b))%bool.
+Definition coord_ok (cp : coordplan) : bool :=
+  (ramp_eqb (cp_dask_x cp) (cp_numpy_x cp) && ramp_eqb (cp_dask_y cp) (cp_numpy_y cp)
+   && (r_axis (cp_dask_x cp) =? 1) && (r_axis (cp_dask_y cp) =? 0)
+   && String.eqb (r_num (cp_dask_x cp)) "cols" && String.eqb (r_num (cp_dask_y cp)) "rows"
+   && negb (r_endpoint (cp_dask_x cp)) && negb (r_endpoint (cp_dask_y cp)))%bool.
+Definition required_coord_sites : list string :=
+  [ "perlin.py:_perlin_dask_numpy"; "terrain.py:_terrain_dask_numpy" ]%string.
+Theorem ramps_match_numpy_plan :
+  forallb coord_ok coord_plans = true /\
+  forallb (fun s => existsb (fun cp => String.eqb s (cp_site cp)) coord_plans) required_coord_sites = true /\
+  (* every coordinate plan is one of the map_blocks plans checked by all_plans_ok *)
+  forallb (fun cp => existsb (fun p => String.eqb (cp_site cp) (p_site p)) plans) coord_plans = true.
+Proof. vm_compute. repeat split; reflexivity. Qed.
